@@ -559,7 +559,10 @@ def process(template_text, tname="<template>"):
                 for o in opts:
                     if o.startswith("rename="):
                         a, b = o[7:].split("->")
-                        rw = re.sub(r"\b%s\b" % re.escape(a), b, rw)
+                        if re.fullmatch(r"\w+", a):
+                            rw = re.sub(r"\b%s\b" % re.escape(a), b, rw)
+                        else:
+                            rw = rw.replace(a, b)
                 gen = rw
             else:
                 if item["open"] is None:
